@@ -130,6 +130,10 @@ func (it *segmentIterator) next() (record, error) {
 
 	// Read key, value and checksum.
 	recordSize := encodedRecordSize(keySize + valueSize)
+	if int64(recordSize) > it.f.size-int64(it.offset) {
+		// The record doesn't fit in the remaining part of the file.
+		return record{}, io.ErrUnexpectedEOF
+	}
 	data := make([]byte, recordSize)
 	copy(data, kvSizeBuf)
 	if _, err := io.ReadFull(it.r, data[6:]); err != nil {
